@@ -95,4 +95,8 @@ def run(ctx):
                             ctx.ob(f"variant-source|{var}|{root.split('::')[-1]}|signed_hash", any("hash" in n.lower() for n in names) and any(n.startswith("param:") for n in names),
                                    f"signed_hash originates from {[n for n in sorted(names)][:4]}", bd.loc(i))
     ctx.floor("variant-constructors", len(ctors), 6)
-    ctx.assume("byte-mutation resistance is cryptographic (C48's primitives are trusted)")
+    ctx.rule("shared with C48: the Ed25519 primitive every transaction signature goes through answers true only from verify_strict on its own "
+             "operands (a non-strict verify accepts a message-independent signature under a small-order key, which would authorize any intent)")
+    import c48
+    c48.check_ed25519_strict(ctx)
+    ctx.assume("byte-mutation resistance is cryptographic (the remaining C48 primitives are trusted)")
